@@ -412,9 +412,22 @@ def check_features(ctx, fi, block, total):
         raise AnalysisError('%s: solver call without operator and target' % where)
     op, rhs = call.args[0], call.args[1]
     ones = T(rhs) in ('np.ones(%s.shape[1])' % Q, 'numpy.ones(%s.shape[1])' % Q, 'np.ones(%s.T.shape[0])' % Q)
+    dtype_note = ''
+    if not ones and isinstance(rhs, ast.Call) and T(rhs.func) in ('np.ones', 'numpy.ones') and len(rhs.args) in (1, 2) \
+            and T(rhs.args[0]) in ('%s.shape[1]' % Q, '%s.T.shape[0]' % Q, '(%s.shape[1],)' % Q, '%s.transpose().shape[0]' % Q):
+        # an explicit element type: the solver works in the precision of its right-hand side, and the estimate v.y inherits it.  Double
+        # precision is what the default gives; anything taken from the query matrix (float32, int) changes the solution.
+        dt = rhs.args[1] if len(rhs.args) == 2 else next((k.value for k in rhs.keywords if k.arg == 'dtype'), None)
+        extra = [k.arg for k in rhs.keywords if k.arg != 'dtype']
+        if dt is not None and not extra:
+            if T(dt) in ('float', 'np.float64', 'numpy.float64', "'float64'", "'float'", "'d'", 'np.double', 'np.float_'):
+                ones = True
+            else:
+                dtype_note = ('; the ones vector is created with dtype `%s`: the solver takes its working precision from the right-hand side, so a '
+                              'single-precision or integer query matrix gives another solution (and fails the row-space test)' % T(dt))
     ctx.ob('ones-target', fi, loop, ones and T(op) in (Q + '.T', Q + '.transpose()'),
-           'solve %s.T v = 1 with one entry of the ones vector per column of %s (per cell); got operator `%s`, target `%s`' % (Q, Q, U(op), U(rhs)),
-           construct='solve in ' + where)
+           'solve %s.T v = 1 with one entry of the ones vector per column of %s (per cell); got operator `%s`, target `%s`%s'
+           % (Q, Q, U(op), U(rhs), dtype_note), construct='solve in ' + where)
 
     def with_v(e):
         return Replace(lambda n: name('__v__') if isinstance(n, ast.Subscript) and T(n) == solve_text else None).visit(clone(e))
